@@ -67,6 +67,13 @@ impl<const BITS: usize, const LIMBS: usize> Integer for Uint<BITS, LIMBS> {
     }
 
     #[inline]
+    #[track_caller]
+    fn next_multiple_of(&self, other: &Self) -> Self {
+        // The provided method adds with `+`, which wraps silently for `Uint`.
+        <Self>::next_multiple_of(*self, *other)
+    }
+
+    #[inline]
     fn extended_gcd(&self, other: &Self) -> ExtendedGcd<Self> {
         let (gcd, x, y, _sign) = <Self>::gcd_extended(*self, *other);
         ExtendedGcd { gcd, x, y }
